@@ -302,7 +302,8 @@ class ImportanceK(Generic[R], SMCAlgorithm[R]):
             log_weights, choices = vmap(self.q.random_weighted, in_axes=(0, None))(
                 sub_keys, self.target
             )
-            trs, target_scores = vmap(self.target.importance)(sub_keys, choices)
+            target_keys = jrandom.split(key, self.get_num_particles())
+            trs, target_scores = vmap(self.target.importance)(target_keys, choices)
         else:
             log_weights = 0.0
             trs, target_scores = vmap(self.target.importance, in_axes=(0, None))(
